@@ -143,11 +143,25 @@ func VP_C05_transparent() {
 		plain = "/s 3 string def currentfile s readstring \x80\x0a\x0d pop /s exch def mark currentfile closefile\n"
 	}
 	trailer := "\n00000000\ncleartomark /d 4 def\n"
+	// optionally a second encrypted section (hex form, concrete) after the first one's trailer:
+	// every eexec starts the cipher afresh
+	plain2, trailer2 := "", ""
+	if vpChoose("sections", vpParam("SECTIONS", 2)) == 1 {
+		plain2 = "/f 6 def mark currentfile closefile\n"
+		trailer2 = "\n0000\ncleartomark /g 8 def\n"
+	}
 	cipher := vpEexecEncryptRef(lead, []byte(plain))
 	// legal binary prefix: first byte not blank, not all of the first four hexadecimal
 	vpAssume(!vpIsBlank(cipher[0]) && cipher[0] != 0)
 	vpAssume(!(vpIsHexDigit(cipher[0]) && vpIsHexDigit(cipher[1]) && vpIsHexDigit(cipher[2]) && vpIsHexDigit(cipher[3])))
 	text := append(append([]byte(clear), cipher...), []byte(trailer)...)
+	if plain2 != "" {
+		text = append(text, []byte("currentfile eexec\n")...)
+		for _, c := range vpEexecEncryptRef([4]byte{1, 2, 3, 4}, []byte(plain2)) {
+			text = append(text, "0123456789abcdef"[c>>4], "0123456789ABCDEF"[c&15])
+		}
+		text = append(text, []byte(trailer2)...)
+	}
 	intp := NewInterpreter()
 	intp.MaxOps = 500
 	err := intp.Execute(&vpReader{data: text, mode: vpChoose("mode", 2), faultAt: -1, name: "src"})
@@ -160,12 +174,19 @@ func VP_C05_transparent() {
 	e2 := ref.ExecuteString(plain)
 	ref.DictStack = ref.DictStack[:depthBefore] // "the dictionary stack is restored"
 	e3 := ref.ExecuteString(trailer)
+	if plain2 != "" && e3 == nil {
+		ref.DictStack = append(ref.DictStack, ref.SystemDict)
+		e4 := ref.ExecuteString(plain2)
+		ref.DictStack = ref.DictStack[:depthBefore]
+		e3 = ref.ExecuteString(trailer2)
+		vpAssert("reference-run-ok-2", e4 == nil || e4 == io.EOF)
+	}
 	vpAssert("reference-run-ok", e1 == nil && (e2 == nil || e2 == io.EOF) && e3 == nil)
 
 	vpAssert("no-error", err == nil)
 	vpAssert("dict-stack-restored", len(intp.DictStack) == 2)
 	vpAssert("same-stack-depth", len(intp.Stack) == len(ref.Stack))
-	for _, k := range []Name{"a", "b", "c", "d", "s"} {
+	for _, k := range []Name{"a", "b", "c", "d", "s", "f", "g"} {
 		v1, ok1 := intp.UserDict[k]
 		v2, ok2 := ref.UserDict[k]
 		vpAssert("same-userdict-keys", ok1 == ok2)
